@@ -175,7 +175,10 @@ def _opt_unwrap_or(eng, st, args, ci):
     v, d = args
     if 1 not in v.payloads:
         return d
-    return merge_val(_discr_is(v, 1), v.payloads[1].items[0], d)
+    try:
+        return merge_val(_discr_is(v, 1), v.payloads[1].items[0], d)
+    except MergeFail:
+        return _fork_on_option(eng, st, v, lambda s, x: [(s, 'ret', x)], lambda s: [(s, 'ret', d)])
 
 
 @intrinsic(r'^((std|core)::result::)?Result::<.*>::(unwrap|expect)$', 'Result::unwrap/expect')
